@@ -89,9 +89,11 @@ Qed.
 
 Section Inv.
   Variable tbl : table.
-  (* strict = true : a valid component digest vouches for source and library.
-     strict = false: ... for the library, and for the source if it exists (what holds for every read_dir
-     order of the pruning loop). *)
+  (* strict = true : a valid component digest vouches for its source (and for its library if that exists).
+                     This is the invariant of the model; it needs every performed pruning step to be
+                     [step_safe], which FactsPrune.v proves for the digests-first removal order.
+     strict = false: ... vouches for the source only if the source exists.  Holds for every removal order;
+                     kept for judging traces whose removal order is not the model's (Regress.v). *)
   Variable strict : bool.
 
   Definition src_ok (fs : fsys) (c s : N) : Prop :=
